@@ -37,7 +37,7 @@ func (c18) Cases(c *Ctx) int { return c.Pick(150, 2500) }
 // Gen samples ranges of every integer kind (placed at type extremes and from the hostile pool) and float ranges.
 func (c18) Gen(dt *drv.T, c *Ctx) any {
 	cs := &C18Case{Base: drv.IntRange(0, 1<<30).Draw(dt, "base")}
-	menu := []string{"bands", "bands", "edges", "fbands", "fedges"}
+	menu := []string{"bands", "bands", "edges", "fbands", "fedges", "freach"}
 	if !c.Thorough() {
 		menu = append(menu, "reach8", "reach8")
 	}
@@ -91,6 +91,29 @@ func (c18) Gen(dt *drv.T, c *Ctx) any {
 			}
 			cs.UA, cs.UB = a, b
 		}
+	case "freach":
+		// a float range of a few representable values: every one of them has to be produced
+		cs.N = 65536
+		cs.Bits = pick(dt, "fbits", 32, 64)
+		a := genFloatBound(dt, cs.Bits, "fa")
+		k := drv.IntRange(1, 48).Draw(dt, "ulps")
+		step := func(a float64) float64 {
+			b := a
+			for i := 0; i < k; i++ {
+				if cs.Bits == 32 {
+					b = float64(math.Nextafter32(float32(b), float32(math.Inf(1))))
+				} else {
+					b = math.Nextafter(b, math.Inf(1))
+				}
+			}
+			return b
+		}
+		b := step(a)
+		if math.IsInf(a, 0) || math.IsInf(b, 0) {
+			a = 1
+			b = step(a)
+		}
+		cs.UA, cs.UB = math.Float64bits(a), math.Float64bits(b)
 	default:
 		cs.N = 131072
 		if cs.What == "fedges" {
@@ -323,6 +346,41 @@ func (p c18) Run(c *Ctx, csAny any) Outcome {
 				}
 			}
 		}
+	case "freach":
+		lo, hi := math.Float64frombits(cs.UA), math.Float64frombits(cs.UB)
+		seen := map[uint64]int{}
+		if cs.Bits == 32 {
+			g := rapid.Float32Range(float32(lo), float32(hi))
+			for i := 0; i < cs.N; i++ {
+				seen[math.Float64bits(float64(g.Example(cs.Base+i)))]++
+			}
+		} else {
+			g := rapid.Float64Range(lo, hi)
+			for i := 0; i < cs.N; i++ {
+				seen[math.Float64bits(g.Example(cs.Base+i))]++
+			}
+		}
+		n := 0
+		for v := lo; v <= hi && n < 200; n++ {
+			bits := math.Float64bits(v)
+			if v == 0 {
+				if seen[math.Float64bits(0)]+seen[math.Float64bits(math.Copysign(0, -1))] == 0 {
+					out.Viol = violf("C18:value-unreachable:float", "Float%dRange(%g, %g): zero never produced in %d draws", cs.Bits, lo, hi, cs.N)
+					return out
+				}
+			} else if seen[bits] == 0 {
+				out.Viol = violf("C18:value-unreachable:float", "Float%dRange(%g, %g): the representable value %g (%#x) never produced in %d draws (%d distinct values seen)", cs.Bits, lo, hi, v, bits, cs.N, len(seen))
+				return out
+			} else if seen[bits] < 20 {
+				out.Classes = append(out.Classes, "asserted-float-value-with-fewer-than-20-hits")
+			}
+			if cs.Bits == 32 {
+				v = float64(math.Nextafter32(float32(v), float32(math.Inf(1))))
+			} else {
+				v = math.Nextafter(v, math.Inf(1))
+			}
+		}
+		out.NonTrivial = n >= 3
 	case "fbands", "fedges":
 		lo, hi := math.Float64frombits(cs.UA), math.Float64frombits(cs.UB)
 		var ex func(i int) float64
